@@ -65,7 +65,7 @@ pub(crate) fn create_format_arg(
     quote!(
         let arg = {
             #[allow(non_camel_case_types)] // We're using __ to help avoid clashes.
-            struct #wrapper<V, M>(V, ::core::marker::PhantomData<M>);
+            struct #wrapper<V, M: ?::core::marker::Sized>(V, ::core::marker::PhantomData<M>);
 
             impl #impl_generics ::core::fmt::Debug
                 for #wrapper<&#field_ty, #ty_ident #ty_generics>
